@@ -1,0 +1,127 @@
+//go:build verif
+
+package http3
+
+import (
+	"context"
+	"io"
+	"net/http"
+	"sync"
+
+	"github.com/quic-go/qpack"
+	"github.com/quic-go/quic-go"
+)
+
+// Verification hooks for property C05 (codec agreement with upstream). Add-only, build tag verif.
+
+// VerifFrame is the projection of what frameParser.ParseNext returns.
+type VerifFrame struct {
+	Kind            string // "data", "headers", "settings", "other:<type>"
+	Length          uint64
+	Datagram        bool
+	ExtendedConnect bool
+	Other           map[uint64]uint64
+}
+
+type verifConn struct {
+	quic.Connection
+	mu     sync.Mutex
+	closed int64
+}
+
+func (c *verifConn) CloseWithError(code quic.ApplicationErrorCode, _ string) error {
+	c.mu.Lock()
+	defer c.mu.Unlock()
+	if c.closed < 0 {
+		c.closed = int64(code)
+	}
+	return nil
+}
+func (c *verifConn) Context() context.Context { return context.Background() }
+
+func verifProject(f frame) VerifFrame {
+	switch f := f.(type) {
+	case *dataFrame:
+		return VerifFrame{Kind: "data", Length: f.Length}
+	case *headersFrame:
+		return VerifFrame{Kind: "headers", Length: f.Length}
+	case *settingsFrame:
+		return VerifFrame{Kind: "settings", Datagram: f.Datagram, ExtendedConnect: f.ExtendedConnect, Other: f.Other}
+	case nil:
+		return VerifFrame{Kind: "nil"}
+	}
+	return VerifFrame{Kind: "other"}
+}
+
+// VerifParseNext runs frameParser.ParseNext (no unknownFrameHandler, as on the control stream and
+// on request streams) on r.  closedCode is the application error code the parser closed the
+// connection with, -1 if it did not.
+func VerifParseNext(r io.Reader) (fr VerifFrame, closedCode int64, err error) {
+	conn := &verifConn{closed: -1}
+	fp := &frameParser{r: r, conn: conn}
+	f, err := fp.ParseNext()
+	if err != nil {
+		return VerifFrame{}, conn.closed, err
+	}
+	return verifProject(f), conn.closed, nil
+}
+
+// VerifParseSettingsFrame runs parseSettingsFrame(r, l).
+func VerifParseSettingsFrame(r io.Reader, l uint64) (VerifFrame, error) {
+	f, err := parseSettingsFrame(r, l)
+	if err != nil {
+		return VerifFrame{}, err
+	}
+	return verifProject(f), nil
+}
+
+// VerifAppendDataFrame / VerifAppendHeadersFrame / VerifAppendSettingsFrame run the Append methods.
+func VerifAppendDataFrame(b []byte, l uint64) []byte    { return (&dataFrame{Length: l}).Append(b) }
+func VerifAppendHeadersFrame(b []byte, l uint64) []byte { return (&headersFrame{Length: l}).Append(b) }
+func VerifAppendSettingsFrame(b []byte, datagram, extendedConnect bool, other map[uint64]uint64) []byte {
+	return (&settingsFrame{Datagram: datagram, ExtendedConnect: extendedConnect, Other: other}).Append(b)
+}
+
+// VerifHeader mirrors the unexported header struct filled by parseHeaders.
+type VerifHeader struct {
+	Path, Method, Authority, Scheme, Status, Protocol string
+	ContentLength                                     int64
+	Headers                                           http.Header
+}
+
+// VerifParseHeaders runs parseHeaders.
+func VerifParseHeaders(fields []qpack.HeaderField, isRequest bool) (VerifHeader, error) {
+	h, err := parseHeaders(fields, isRequest)
+	if err != nil {
+		return VerifHeader{}, err
+	}
+	return VerifHeader{Path: h.Path, Method: h.Method, Authority: h.Authority, Scheme: h.Scheme, Status: h.Status,
+		Protocol: h.Protocol, ContentLength: h.ContentLength, Headers: h.Headers}, nil
+}
+
+// VerifParseTrailers runs parseTrailers.
+func VerifParseTrailers(fields []qpack.HeaderField) (http.Header, error) { return parseTrailers(fields) }
+
+// VerifUpdateResponseFromHeaders runs updateResponseFromHeaders on a fresh response.
+func VerifUpdateResponseFromHeaders(fields []qpack.HeaderField) (*http.Response, error) {
+	rsp := &http.Response{}
+	if err := updateResponseFromHeaders(rsp, fields); err != nil {
+		return nil, err
+	}
+	return rsp, nil
+}
+
+// VerifWriteRequestHeaders runs requestWriter.writeHeaders (HEADERS frame header + QPACK field
+// section of the request) on a fresh request writer and returns the bytes put on the stream.
+func VerifWriteRequestHeaders(req *http.Request, gzip bool) ([]byte, error) {
+	w := newRequestWriter()
+	var buf writeCollector
+	if err := w.writeHeaders(&buf, req, gzip, nil); err != nil {
+		return nil, err
+	}
+	return buf.b, nil
+}
+
+type writeCollector struct{ b []byte }
+
+func (c *writeCollector) Write(p []byte) (int, error) { c.b = append(c.b, p...); return len(p), nil }
